@@ -37,7 +37,7 @@ ASSUMPTIONS = [
 
 
 def floors(tier):
-    return {"clean": 800, "garbage": 800, "nontrivial": 300, "has-rejected": 800, "pipe-like-source": 300, "handler=object": 500}
+    return {"clean": 800, "garbage": 800, "nontrivial": 300, "has-rejected": 800, "pipe-like-source": 300, "handler=object": 300, "handler=truthy": 300, "handler=method": 300}
 
 
 def plan(tier, seed):
@@ -69,6 +69,15 @@ class Collector:
         return len(self.seen)
 
 
+class Reporter:
+    def __init__(self, events):
+        self.events = events
+
+    def on_error(self, err):
+        self.events.append(("err", err))
+        return len(self.events)
+
+
 def trace(data, opts, qe, handler=True):
     """-> (events, foreign_exc | None); events: ("item", raw, parsed) | ("err", exc)"""
     import pyubx2
@@ -77,9 +86,27 @@ def trace(data, opts, qe, handler=True):
     o = {k: v for k, v in dict(opts, quitonerror=qe).items() if not k.startswith("_")}
     h = None
     if handler and qe == 1:
-        h = Collector(events) if opts.get("_handler") == "object" else (lambda e: events.append(("err", e)))
+        hk = opts.get("_handler")
+        if hk == "object":
+            h = Collector(events)
+        elif hk == "method":
+            # a bound method of an object nothing else refers to: the reader was handed
+            # the only reference and must keep it alive
+            import gc
+
+            h = Reporter(events).on_error
+            gc.collect()
+        elif hk == "truthy":
+            h = lambda e: (events.append(("err", e)), e)[1]  # noqa: E731 - returns something true
+        else:
+            h = lambda e: events.append(("err", e))  # noqa: E731
     stream = S.pipe_stream(data) if opts.get("_pipe") else io.BytesIO(data)
     rd = S.mk_reader(stream, o, h)
+    with S.deadline():
+        return _trace_loop(rd, data, qe, events)
+
+
+def _trace_loop(rd, data, qe, events):
     steps = 0
     while True:
         steps += 1
@@ -216,7 +243,7 @@ OPTS = st.fixed_dictionaries({
     "validate": st.sampled_from([1, 1, 0]),
     "parsebitfield": st.sampled_from([1, 0]),
     "protfilter": st.sampled_from([7, 7, 7, 3]),
-    "_handler": st.sampled_from(["function", "object"]),
+    "_handler": st.sampled_from(["function", "object", "truthy", "method"]),
     "_pipe": st.sampled_from([False, False, True]),
 })
 
